@@ -125,6 +125,16 @@ CLAIMS = {
             "DESIGN.md section 9 C11",
             TB + "; conf_dict_to_tlv and ConfigId by contract in the L1 part; set_config bounded to <= 3 components at L1",
             "deductive: AST->VC (loop contract with arbitrary-index invariant, object identity frames), z3; bounded monitor"),
+    "C12": ("proof",
+            "dictionary -> identifier by contract on the real create_from_prj_settings / create_from_dev_settings / "
+            "__init__: all 2^5 presence patterns of the naming values per function with symbolic byte contents (widths 1,2,4): "
+            "documented error exactly when the version is missing or the scheme is incomplete without a name, numeric fields "
+            "= big-endian values with 9999 -> None, name-only fallback otherwise.  The text form (print/parse inverse, "
+            "canonical text, format errors) needs integer<->digit string reasoning that z3/cvc5 leave unknown: bounded, "
+            "exhaustive per field range (customer 0..99999, project/device 0..9999, version 0..99) and adversarial names",
+            "DESIGN.md section 9 C12",
+            TB + "; bytes.decode modelled as an uninterpreted function of valid input; text form is a bounded stand-in",
+            "deductive: AST->VC with dictionary case split and symbolic contents, z3; bounded exhaustive ranges for the text form"),
 }
 
 NA_DEFAULT = "check not built yet (construction in progress, see DESIGN.md section 14)"
